@@ -33,6 +33,17 @@ REQUIRED = ["el_length", "el_nonneg", "el_total", "el_total_of_edges", "no_layer
 RT = 1e-9          # oracle tolerance on non-exact quantities (moments, costs on float inputs)
 RT_CORR = 1e-11    # model(Float) vs numpy on pow/sum pipelines (summation order, libm/SVML pow)
 F53 = 5.0 / 3.0
+# single-precision (float32) columns: NumPy sums and exponentiates them in float32, so the non-exact conservation clauses can
+# only hold to single-precision rounding.  Observed on the unchanged tree over every float32 case of seeds 0..11 quick and one
+# thorough run: see the measurements next to each use.  1e-4 leaves a factor >= 100 and is still far below the effect of a dropped
+# layer, a wrong exponent or a wrapped integer (>= 1e-2).
+RT32 = 1e-4
+W32 = {}          # worst relative deviations seen in this process on single-precision columns (reported in the evidence notes)
+
+
+def _w32(key, a, b):
+    if a == a and b == b and max(abs(a), abs(b)) > 0:
+        W32[key] = max(W32.get(key, 0.0), abs(a - b) / max(abs(a), abs(b)))
 
 
 def _single_thread_blas():
@@ -95,6 +106,31 @@ def _heights(rng, N, kind, L):
     raise ValueError(kind)
 
 
+def _relayout1(a, kind):
+    """the same 1-D VALUES in another memory layout: a column of a 2-D table (what numpy.loadtxt / a FITS table gives; the other
+    columns hold NaN / a sentinel, so code that walks the buffer reads garbage), a negative-stride view, a read-only array"""
+    a = numpy.array(a)
+    if kind == "table-column":
+        tab = numpy.full((len(a), 3), numpy.nan if a.dtype.kind == "f" else 7, dtype=a.dtype)
+        tab[:, 1] = a
+        return tab[:, 1]
+    if kind == "negstride":
+        return a[::-1].copy()[::-1]
+    if kind == "readonly":
+        b = a.copy()
+        b.setflags(write=False)
+        return b
+    raise ValueError(kind)
+
+
+NP_INTS = ["int64", "int32", "int16", "uint8"]
+
+
+def _np_int(rng, L):
+    """L (or R) as a NumPy integer scalar — what `for L in numpy.arange(2, 8)` or `L = table['nlayers'][0]` hands over"""
+    return getattr(numpy, rng.choice(NP_INTS))(L)
+
+
 GCTM_GENERAL = ["regular", "irregular"]
 GCTM_THIN = ["ground-alone", "regular-L=N-1", "strong-ground"]
 
@@ -145,6 +181,76 @@ def _gctm_profile(rng, it, NMAX, fams):
         h = numpy.round(h).astype(rng.choice(["int64", "int32"]))
         fam += ":int-heights"
     return fam, h, p, L
+
+
+GCTM_AUDIT = ["co-scaled:pow2", "co-scaled:units", "L=6..7", "zero-layers", "unsorted", "large-N", "layout", "numpy-int-L"]
+
+
+def _gctm_audit_profile(rng, it, NMAX):
+    """round 5 (generator audit): (family, heights, strengths, L, scalings, bands) — GCTM argument classes the families above never
+    produce.  `scalings` = (h_scaling, cn2_scaling, how) or None; `bands` as in oracle_gctm.
+      co-scaled:pow2   a general-family profile in other units, heights x 2^a and strengths x 2^b, with h_scaling = 1e4 x 2^a and
+                       cn2_scaling = 1e-13 x 2^b passed by keyword or by position (one of them alone when only one unit changes):
+                       the scaled problem the optimiser sees is bit-identical to the default-units one, so the calibrated bands
+                       apply unchanged;
+      co-scaled:units  the same with decimal factors — kilometres (1e-3), feet (3.28084), centimetres (100); strengths as
+                       fractions of the total (sum = 1) or any decade from 1e-5 to 1e+15 of the usual: identical up to rounding;
+      L=6..7           more output layers than the bands were calibrated for (L <= 5): judged by every clause but the bands;
+      zero-layers      10-30 % of the layers carry no turbulence (every slab still does): every clause but the bands;
+      unsorted         the layers in arbitrary order (the method does not need sorted input): same profile, bands apply;
+      large-N          257 .. 3000 input layers: the band on the residual norm only.  Measured on the unchanged tree, 2300 profiles of
+                       this family (10 generator seeds): worst residual norm L=1: 4e-16, L=2: 6.5e-5 (band 0.10), L=3: 1.4e-3 (band
+                       0.03, factor 21), L=4: 3.8e-4 (0.03, 79 x), L=5: 4.5e-4 (0.03, 66 x).  The total Cn2 comes within 11 x of its
+                       band (L=4: 0.0090 of 0.10; L=5: 0.031 of 0.40) and the worst single moment within 3 x (L=4: 0.155 of 0.5): both
+                       too close to apply, they are recorded in the evidence notes only;
+      layout           columns of a 2-D table / negative stride / read-only: same values, bands apply;
+      numpy-int-L      L as a NumPy integer scalar."""
+    fam = GCTM_AUDIT[it % len(GCTM_AUDIT)]
+
+    def strengths(N):
+        return numpy.array([rng.uniform(0.02, 1) ** rng.randint(1, 4) for _ in range(N)])
+    N = rng.randint(3, NMAX)
+    L = rng.randint(1, min(N - 1, 5))
+    scalings, bands = None, True
+    if fam == "L=6..7":
+        N = rng.randint(14, max(NMAX, 60))
+        L = rng.choice([6, 7])
+        bands = False
+    elif fam == "large-N":
+        N = rng.choice([257, rng.randint(258, 400), 1000, 3000])
+        bands = "norm"
+    h = _heights(rng, N, rng.choice(GCTM_GENERAL), L)
+    p = strengths(N) * 10 ** rng.uniform(-14, -12)
+    if fam == "co-scaled:pow2":
+        a, b = rng.randint(-10, 10), rng.randint(-60, 60)
+        how = rng.choice(["kw", "pos", "kw-h", "kw-cn2"])
+        if how == "kw-h":
+            b = 0
+        if how == "kw-cn2":
+            a = 0
+        h, p = h * 2.0 ** a, p * 2.0 ** b
+        scalings = (None if how == "kw-cn2" else 10000.0 * 2.0 ** a, None if how == "kw-h" else 100e-15 * 2.0 ** b, how)
+    elif fam == "co-scaled:units":
+        fa = rng.choice([1e-3, 3.28084, 100.0, 1.0])
+        fb = rng.choice([1.0 / float(p.sum()), 10 ** rng.uniform(-5, 15)])
+        how = rng.choice(["kw", "pos"])
+        h, p = h * fa, p * fb
+        scalings = (10000.0 * fa, 100e-15 * fb, how)
+    elif fam == "zero-layers":
+        for j in rng.sample(range(N), max(1, int(N * rng.uniform(0.1, 0.3)))):
+            p[j] = 0.0
+        bands = False
+    elif fam == "unsorted":
+        perm = list(range(N))
+        rng.shuffle(perm)
+        h, p = h[perm], p[perm]
+    elif fam == "layout":
+        kind = rng.choice(["table-column", "negstride", "readonly"])
+        h, p = _relayout1(h, kind), _relayout1(p, kind)
+        fam += ":" + kind
+    elif fam == "numpy-int-L":
+        L = _np_int(rng, L)
+    return fam, h, p, L, scalings, bands
 
 
 def _roundup_profile(rng, N, L):
@@ -210,8 +316,10 @@ def splits_cost(h, p, splits, N):
     return sum(group_cost(h, p, bounds[i], bounds[i + 1]) for i in range(len(bounds) - 1))
 
 
-def oracle_el(pc, h, p, L, w, exact):
-    """the property on equivalent_layers, evaluated on the real code.  Returns [(key, what)]."""
+def oracle_el(pc, h, p, L, w, exact, rt32=None):
+    """the property on equivalent_layers, evaluated on the real code.  Returns [(key, what)].
+    `rt32`: the columns are stored in single precision, so the library computes its sums in float32 (NumPy's promotion rules);
+    the non-exact clauses are then asked to that tolerance, against references computed in float64 from the same values"""
     out = []
     h0, p0, w0 = h.copy(), p.copy(), (None if w is None else w.copy())
     res = pc.equivalent_layers(h, p, L, w=w) if w is not None else pc.equivalent_layers(h, p, L)
@@ -225,7 +333,7 @@ def oracle_el(pc, h, p, L, w, exact):
         return out + [("el:length", "equivalent_layers(L=%d) returned shapes %s %s" % (L, he.shape, ce.shape))]
     if not numpy.all(numpy.isfinite(ce)) or numpy.any(ce < 0):
         out.append(("el:negative-strength", "cn2_el=%s" % ce.tolist()))
-    tot, got = float(p.sum()), float(ce.sum())
+    tot, got = float(p.sum(dtype=float) if rt32 else p.sum()), float(ce.sum())
     if exact and p[0] == 1.0 and len(p) > 1 and p[1] == 2.0:      # bit-coded strengths: name the layer
         seen = 0
         for c in ce:
@@ -234,7 +342,9 @@ def oracle_el(pc, h, p, L, w, exact):
         if missing or seen != (1 << len(p)) - 1:
             out.append(("el:layer-dropped", "layers %s of %d are in no slab (or counted twice): sum cn2_el=%r, input %r"
                         % (missing, len(p), got, tot)))
-    if not (got == tot if exact else _isclose(got, tot, 1e-12)):
+    if rt32:
+        _w32("el:total", got, tot)
+    if not (got == tot if exact else _isclose(got, tot, rt32 or 1e-12)):
         out.append(("el:total-cn2", "sum(cn2_el)=%r but sum(p)=%r (N=%d, L=%d)" % (got, tot, len(p), L)))
     empty = ce == 0
     if numpy.any(numpy.isnan(he)):
@@ -251,8 +361,10 @@ def oracle_el(pc, h, p, L, w, exact):
             out.append(("el:%s-moment" % nm, "non-finite effective %s in a non-empty slab: %s" % (nm, xout.tolist())))
             continue
         lhs = float((ce[ok] * xout[ok] ** F53).sum())
-        rhs = float((p * xin ** F53).sum())
-        if not _isclose(lhs, rhs, RT):
+        rhs = float((p.astype(float) * xin.astype(float) ** F53).sum()) if rt32 else float((p * xin ** F53).sum())
+        if rt32:
+            _w32("el:%s-moment" % nm, lhs, rhs)
+        if not _isclose(lhs, rhs, rt32 or RT):
             out.append(("el:%s-moment" % nm, "sum cn2_el*%s_el^(5/3)=%r but sum p*%s^(5/3)=%r (N=%d, L=%d)" % (nm, lhs, nm, rhs, len(p), L)))
     if w is not None:             # giving wind must not change the layers
         h2, c2 = pc.equivalent_layers(h, p, L)
@@ -261,13 +373,14 @@ def oracle_el(pc, h, p, L, w, exact):
     return out
 
 
-def oracle_og(pc, h, p, L, R, np_seed, exact, exact_cost=None):
+def oracle_og(pc, h, p, L, R, np_seed, exact, exact_cost=None, rt32=None):
     """the property on optimal_grouping for the global-RNG state `numpy.random.seed(np_seed)`.  Only the clause "heights in
     increasing order" needs strictly increasing input heights (theorem og_heights_subset_sorted, hypothesis hmono); every other
     clause (L layers, non-negative, total, heights are input heights of their own group, no layer dropped, cost <= equal split)
     is evaluated for unsorted / repeated / descending / integer-typed heights as well"""
     out = []
     N = len(p)
+    rt_tot, rt_part, rt_cost = (rt32, rt32, rt32) if rt32 else (1e-12, 1e-11, RT)
     increasing = bool(numpy.all(numpy.diff(numpy.asarray(h, dtype=float)) > 0))
     exact_cost = exact if exact_cost is None else exact_cost
     h0, p0 = h.copy(), p.copy()
@@ -284,10 +397,10 @@ def oracle_og(pc, h, p, L, R, np_seed, exact, exact_cost=None):
         return out + [("og:length:L=1" if L == 1 else "og:length", "optimal_grouping(L=%d) returned shapes %s %s" % (L, hL.shape, cL.shape))]
     if not numpy.all(numpy.isfinite(cL)) or numpy.any(cL < 0):
         out.append(("og:negative-strength", "cn2=%s" % cL.tolist()))
-    tot, got = float(p.sum()), float(cL.sum())
-    if not (got == tot if exact else _isclose(got, tot, 1e-12)):
+    tot, got = float(p.sum(dtype=float) if rt32 else p.sum()), float(cL.sum())
+    if not (got == tot if exact else _isclose(got, tot, rt_tot)):
         out.append(("og:total-cn2", "sum(cn2_L)=%r but sum(p)=%r (N=%d, L=%d, R=%d)" % (got, tot, N, L, R)))
-    hs = set(h.tolist())
+    hs = set(numpy.asarray(h, dtype=float).tolist())
     if any(x not in hs for x in hL.tolist()):
         out.append(("og:height-not-input", "returned heights %s are not all input heights" % hL.tolist()))
     if increasing and numpy.any(numpy.diff(hL) <= 0):
@@ -297,10 +410,10 @@ def oracle_og(pc, h, p, L, R, np_seed, exact, exact_cost=None):
         bounds, j, okp = [0], 0, True
         for c in cL.tolist():
             acc, j0 = 0.0, j
-            while j < N and (acc < c if exact else acc < c * (1 - 1e-12)):
+            while j < N and (acc < c if exact else acc < c * (1 - rt_tot)):
                 acc += float(p[j])
                 j += 1
-            if j == j0 or not (acc == c if exact else _isclose(acc, c, 1e-11)):
+            if j == j0 or not (acc == c if exact else _isclose(acc, c, rt_part)):
                 okp = False
                 break
             bounds.append(j)
@@ -316,12 +429,17 @@ def oracle_og(pc, h, p, L, R, np_seed, exact, exact_cost=None):
                 out.append(("og:height-outside-group", "a returned height is not a height of its own group: %s, groups %s"
                             % (hL.tolist(), bounds)))
             else:
-                cost = sum(group_cost(h, p, bounds[l], bounds[l + 1], rep=reps[l]) for l in range(L))
-                eq = numpy.linspace(0, N, L + 1, dtype=int)[1:-1]
-                ceq = splits_cost(h, p, eq, N)
-                if not (cost <= ceq if exact_cost else cost <= ceq * (1 + RT)):
+                # the oracle's own costs are evaluated in float64 whatever type the columns are stored in (unsigned or narrow
+                # integer heights must not wrap inside the ORACLE)
+                hf, pf = numpy.asarray(h, dtype=float), numpy.asarray(p, dtype=float)
+                cost = sum(group_cost(hf, pf, bounds[l], bounds[l + 1], rep=reps[l]) for l in range(L))
+                eq = numpy.linspace(0, N, int(L) + 1, dtype=int)[1:-1]
+                ceq = splits_cost(hf, pf, eq, N)
+                if rt32 and ceq > 0:
+                    W32["og:cost/equal-split - 1"] = max(W32.get("og:cost/equal-split - 1", -1.0), cost / ceq - 1.0)
+                if not (cost <= ceq if exact_cost else cost <= ceq * (1 + rt_cost)):
                     out.append(("og:cost-worse-than-equal-split", "cost of the returned layers %r > cost of the equal split %r "
-                                "(N=%d, L=%d, R=%d, numpy seed %d)" % (cost, ceq, N, L, R, np_seed)))
+                                "(N=%d, L=%d, R=%d, numpy seed %s)" % (cost, ceq, N, L, R, np_seed)))
     return out
 
 
@@ -355,13 +473,29 @@ def proj_grad(x, L, m0):
 PG_MIN, RES_MIN, MOVE_MIN = 1e-3, 1e-4, 1e-9
 
 
-def oracle_gctm(pc, h, p, L, stats=None, bands=True):
+def oracle_gctm(pc, h, p, L, stats=None, bands=True, scalings=None):
     """`bands`: apply the per-L accuracy bands GCTM_BAND (calibrated on the general families only; the thinly filled families
-    GCTM_THIN come within 1.3 x of them on the unchanged tree, so they are judged by every other clause)"""
+    GCTM_THIN come within 1.3 x of them on the unchanged tree, so they are judged by every other clause); "norm": only the
+    band on the residual norm (large N, see GCTM_AUDIT).
+    `scalings` = (h_scaling, cn2_scaling, how): the call passes the two optional scaling arguments (how = "kw" / "pos" / "kw-h" /
+    "kw-cn2"; None in a pair = that default) and every moment is evaluated in THOSE units — the clauses are the same"""
     out = []
     HS, CS = 10000.0, 100e-15
     h0, p0 = h.copy(), p.copy()
-    res = pc.GCTM(h, p, L)
+    if scalings is None:
+        res = pc.GCTM(h, p, L)
+    else:
+        hs_, cs_, how = scalings
+        HS, CS = (HS if hs_ is None else float(hs_)), (CS if cs_ is None else float(cs_))
+        if how == "pos":
+            res = pc.GCTM(h, p, L, HS if hs_ is None else hs_, CS if cs_ is None else cs_)
+        else:
+            kw = {}
+            if hs_ is not None:
+                kw["h_scaling"] = hs_
+            if cs_ is not None:
+                kw["cn2_scaling"] = cs_
+            res = pc.GCTM(h, p, L, **kw)
     if not (numpy.array_equal(h, h0) and numpy.array_equal(p, p0)):
         out.append(("gctm:mutates-input", "GCTM changed its arguments"))
     hL, cL = numpy.asarray(res[0], dtype=float), numpy.asarray(res[1], dtype=float)
@@ -402,6 +536,8 @@ def oracle_gctm(pc, h, p, L, stats=None, bands=True):
     rel, rel0 = float(numpy.max(relk)), float(relk[0])
     resn = float(numpy.linalg.norm(m1 - m0) / numpy.linalg.norm(m0))
     band, band0, bandn = GCTM_BAND[min(L, 5)] if bands else (float("inf"),) * 3
+    if bands == "norm":
+        band = band0 = float("inf")
     if not rel0 <= band0:
         out.append(("gctm:total-cn2", "moment 0 (the total Cn2) of the result is off by %.3g (relative), allowed %.3g for L=%d (N=%d): "
                     "sum %r vs %r" % (rel0, band0, L, len(p), float(cL.sum()), float(p0.sum()))))
@@ -429,7 +565,50 @@ def oracle_gctm(pc, h, p, L, stats=None, bands=True):
 GCTM_BAND = {1: (1e-12, 1e-12, 1e-12), 2: (0.35, 0.05, 0.10), 3: (0.50, 0.03, 0.03), 4: (0.50, 0.10, 0.03), 5: (0.50, 0.40, 0.03)}
 
 
-# ------------------------------------------------------------------------------------------------ the check
+# ------------------------------------------------------------------------------------------------ a fresh interpreter
+# The property quantifies over HISTORIES.  The one history this process cannot produce is "no history": the first call of a
+# function in a new interpreter.  A child interpreter (started at the beginning of the run, collected at the end, so it costs no
+# wall time) evaluates ten calls — one per method as the FIRST call of that method in its process, then seven more of the local
+# search, whose result depends on where it starts — and the parent makes the same
+# calls at the END of its run (hundreds of calls later, and directly after a different profile with the same N and L).  All three
+# functions are deterministic given the arguments (optimal_grouping: given the seeded global generator), so the results must
+# agree (rel. 1e-9, the standard of the shared-arrays sequence test; observed: bit-identical, seeds 0..11).
+_CHILD = r"""
+import sys, json, numpy, warnings
+warnings.filterwarnings("ignore")
+from harness import common
+from harness.props import c18
+from aotools.turbulence import profile_compression as pc
+c18._single_thread_blas()
+out = []
+for job in json.loads(sys.argv[1]):
+    h = numpy.array([common.h2f(x) for x in job["h"].split()])
+    p = numpy.array([common.h2f(x) for x in job["p"].split()])
+    with numpy.errstate(all="ignore"):
+        if job["fn"] == "equivalent_layers":
+            w = numpy.array([common.h2f(x) for x in job["w"].split()])
+            res = pc.equivalent_layers(h, p, job["L"], w=w)
+        elif job["fn"] == "optimal_grouping":
+            numpy.random.seed(job["seed"])
+            res = pc.optimal_grouping(job["R"], job["L"], h, p)
+        else:
+            res = pc.GCTM(h, p, job["L"])
+    out.append([" ".join(common.f2h(float(x)) for x in numpy.asarray(r, dtype=float).ravel()) for r in res])
+json.dump(out, sys.stdout)
+"""
+
+
+def _start_child(jobs):
+    import json
+    import os
+    import subprocess
+    import sys
+    env = dict(os.environ)
+    env["PYTHONPATH"] = os.pathsep.join([common.REPO, common.VERIF])
+    return subprocess.Popen([sys.executable, "-W", "ignore", "-c", _CHILD, json.dumps(jobs)], stdin=subprocess.DEVNULL,
+                            stdout=subprocess.PIPE, stderr=subprocess.PIPE, env=env, cwd=common.VERIF, text=True)
+
+
 def _pinned_el(h, p, L):
     """NumPy semantics of the PINNED edge construction (numpy.arange + numpy.digitize); used only to validate the driver's
     Float model of `arange` (length ⌈(stop-start)/step⌉, elements start + i·((start+step)-start)) and of `digitize`."""
@@ -486,10 +665,45 @@ def run(chk):
         "one scalar type)",
         "numpy.random.choice is external: the theorems hold for every list of valid restart split-lists; that the real generator "
         "only yields valid lists is checked on every restart the harness observes",
+        "round 5 (generator audit): columns of a 2-D table / negative-stride / read-only arrays, float32 columns (NumPy then sums in "
+        "single precision: totals, 5/3 moments and costs asked to 1e-4, observed <= 4.5e-7; strengths kept dyadic so that the grouping "
+        "stays exactly recoverable), unsigned columns for equivalent_layers, strengths and heights rescaled by exact powers of two "
+        "(2^-100 .. 2^40, 'kilometres'), calm layers (w = 0), L and R as NumPy integer scalars, N up to 5000 (equivalent layers) / 300 "
+        "(optimal grouping) / 3000 (GCTM, judged by the residual-norm band only), R = 10 (thorough 50), global-generator states "
+        "seeded with 0 / 2^32-1 / arrays, GCTM's h_scaling / cn2_scaling arguments (profile and scalings co-scaled, moments evaluated "
+        "in the passed units), GCTM with L = 6..7, zero-strength layers, unsorted layers, every public entry point (module, "
+        "aotools.turbulence, aotools) are exercised by the oracle only",
+        "histories: besides sequences on shared arrays, each method is called on a second profile with the same N and L right after "
+        "the first, and ten calls are compared (rel. 1e-9) with the same calls made as the first calls of a FRESH interpreter — "
+        "the three functions are deterministic given their arguments and the seeded global generator",
+        "NOT generated: float32 columns for GCTM (its L = 1 band of 1e-12 is a double-precision statement), lists / tuples (h.max() "
+        "raises on the unchanged tree; the docstrings ask for numpy.ndarray), negative heights (h^(5/3) is NaN)",
         "numpy.linspace(0,N,L+1,dtype=int)[1:-1] is evaluated in binary64 and can differ by one from floor(kN/L); its validity is "
         "checked exhaustively for N <= 200 (quick) / 600 (thorough) by the model's decidable `Valid`",
     ]
     chk.build_and_audit("AoVerif.Props.C18", "AoVerif.Props.C18", REQUIRED)
+
+    # ---------------------------------------------------------------- a fresh interpreter works on ten calls meanwhile
+    fresh_jobs, fresh_prev = [], []
+    for k_job, fn in enumerate(["equivalent_layers", "optimal_grouping", "GCTM"] + ["optimal_grouping"] * 7):
+        N = rng.randint(6, 30)
+        L = rng.randint(2, min(5, N - 1))
+        if k_job >= 3:
+            # the local search alone (no restarts) on regular grids, where its result depends on the grouping it starts from in
+            # about a third of the profile pairs (measured: 70 of 200) — anything carried over from profile A shows
+            N, L = rng.randint(12, 30), rng.randint(3, 5)
+        prof = []
+        for _ in range(2):            # profile A (the history) and profile B (the call under test): same N, same L
+            hh = _heights(rng, N, "regular" if k_job >= 3 else rng.choice(["regular", "irregular"]), L)
+            pp = numpy.array([rng.uniform(0.05, 1) ** rng.randint(1, 3) for _ in range(N)]) * 10 ** rng.uniform(-14, -12)
+            ww = numpy.array([rng.uniform(1, 60) for _ in range(N)])
+            prof.append((hh, pp, ww))
+        if rng.random() < 0.5:
+            prof[0] = (prof[1][0].copy(), prof[0][1], prof[0][2])     # same heights, other strengths
+        fresh_prev.append(prof[0])
+        fresh_jobs.append({"fn": fn, "L": L, "R": 0 if 3 <= k_job < 9 else 3, "seed": rng.getrandbits(31), "h": _hex(prof[1][0]), "p": _hex(prof[1][1]),
+                           "w": _hex(prof[1][2])})
+    child = _start_child(fresh_jobs)
 
     lines, after = [], []      # driver operations and the comparison to run on each answer
 
@@ -513,6 +727,8 @@ def run(chk):
             corr_fail("%s: the real code raised %s: %s (case %s)" % (section, type(ex).__name__, ex, it))
 
     NMAX = 40 if quick else 64
+    # every public entry point of the three functions (the sub-package and the package re-export them with `import *`)
+    ENTRY = (("profile_compression", pc), ("aotools.turbulence", aotools.turbulence), ("aotools", aotools))
     np_state = numpy.random.get_state()
 
     # ---------------------------------------------------------------- corpus: the recorded inputs of D13, D14, D15 first
@@ -547,9 +763,15 @@ def run(chk):
         N = rng.randint(2, NMAX) if it % 7 else rng.randint(2, 6)
         if it % 25 == 3:
             N = rng.randint(NMAX + 1, 100)        # up to the documented use (a 100-layer profile)
+        if it % 50 == 11:
+            # high-resolution input (radiosonde / SCIDAR / model levels): N beyond 2^8 and into the thousands
+            N = rng.choice([257, rng.randint(258, 400), 1000, 5000])
+            chk.count("el:N>256")
         L = rng.randint(1, N - 1)
         if it % 25 == 3 and rng.random() < 0.5:
             L = rng.randint(1, 10)
+        if it % 50 == 11:
+            L = rng.choice([1, 2, 5, 10, 37, rng.randint(1, N - 1), N - 1])
         kind = hk[it % len(hk)]
         if kind == "roundup":
             h = _roundup_profile(rng, N, L)
@@ -573,7 +795,8 @@ def run(chk):
         if it % 5 == 2:
             # integer-typed columns (heights in metres, strengths as counts, wind in whole m/s — what a table read with
             # dtype=int gives): the results are floats all the same
-            idt = rng.choice(["int64", "int32"])
+            # (round 5: unsigned columns too — heights below 65 km and counts below 16385 fit uint16)
+            idt = rng.choice(["int64", "int32", "uint16", "uint32", "uint64"])
             h = numpy.round(h).astype(idt)
             if skind in ("ones", "bits", "dyadic", "zeros") and (skind != "bits" or (N <= 30 and idt == "int64") or N <= 20):
                 p = numpy.round(p * (16 if skind in ("dyadic", "zeros") else 1)).astype("int64" if skind == "bits" else idt)
@@ -581,6 +804,40 @@ def run(chk):
                 usew = True
                 w = numpy.array([rng.randint(1, 60) for _ in range(N)], dtype=idt)
             chk.count("el:integer-dtype")
+            chk.count("el:dtype=" + idt)
+        # ---- round 5 (generator audit): storage / magnitude / argument-type classes; the clauses are unchanged
+        rt32 = None
+        if idt is None and it % 11 == 5:
+            # single-precision columns (a FITS table, numpy.float32 model output): the library then sums in float32.
+            # Observed on the unchanged tree (seeds 0..11 quick + thorough seed 0, twice): total 1.4e-7, height moment 4.5e-7,
+            # wind moment 2.4e-7 -> RT32 = 1e-4 is >= 220 x
+            rt32 = RT32
+            if skind == "bits":
+                skind = "dyadic"
+                p = _strengths(rng, N, skind)
+            h, p = h.astype("float32"), p.astype("float32")       # dyadic strengths (<= 14 bits) and their sums stay exact
+            if skind == "float":
+                exact = False
+            if usew:
+                w = w.astype("float32")
+            chk.count("el:dtype=float32")
+        elif idt is None and it % 3 == 1:
+            # other units / magnitudes, as exact powers of two so that exactness survives: strengths from 1e-30 to 1e+12 of the
+            # usual (Cn2 per metre, relative weights, unnormalised counts), heights in "kilometres" (x 2^-10)
+            kp = rng.randint(-100, 40)
+            p = p * 2.0 ** kp
+            if rng.random() < 0.5:
+                h = h * 2.0 ** -10
+            chk.count("el:rescaled-by-powers-of-two")
+        if usew and w.dtype.kind == "f" and rng.random() < 0.2:
+            w = w.copy()
+            for j in rng.sample(range(N), rng.randint(1, max(1, N // 3))):     # calm layers: wind speed exactly 0
+                w[j] = 0.0
+            chk.count("el:calm-layers (w = 0)")
+        if it % 6 == 4:
+            L = _np_int(rng, L)
+            chk.count("el:L is a NumPy integer")
+        pc_ = ENTRY[it % 3][1]
         if rng.random() < 0.2:                      # layers need not be sorted for this method
             perm = list(range(N))
             rng.shuffle(perm)
@@ -590,17 +847,25 @@ def run(chk):
             if skind == "bits":
                 skind, exact = "dyadic", True
             chk.count("el:unsorted")
+        layout = None
+        if it % 4 == 1:
+            layout = rng.choice(["table-column", "negstride", "readonly"])
+            h, p = _relayout1(h, layout), _relayout1(p, layout)
+            if usew:
+                w = _relayout1(w, layout)
+            chk.count("el:layout=" + layout)
         chk.count("el:h=%s" % kind)
         chk.count("el:p=%s" % skind)
         chk.count("el:L=1" if L == 1 else ("el:L=N-1" if L == N - 1 else "el:1<L<N-1"))
         chk.case(("el", N, L, kind, skind, usew, it if N > 8 else _fl(h)[:3]),
                  sample={"fn": "equivalent_layers", "N": N, "L": L, "h": _fl(h), "p": _fl(p)} if it < 2 else None)
         chk.oracle_cases += 1
-        replay = {"call": "equivalent_layers", "h": _fl(h), "p": _fl(p), "L": L, "w": None if w is None else _fl(w),
+        replay = {"call": "equivalent_layers", "h": _fl(h), "p": _fl(p), "L": int(L), "w": None if w is None else _fl(w),
                   "h_hex": _hex(h), "p_hex": _hex(p), "exact": exact,
-                  "dtypes": [str(h.dtype), str(p.dtype), None if w is None else str(w.dtype)]}
+                  "dtypes": [str(h.dtype), str(p.dtype), None if w is None else str(w.dtype)],
+                  "layout": layout, "L_type": type(L).__name__, "rt32": rt32, "via": ENTRY[it % 3][0]}
         try:
-            fails = oracle_el(pc, h, p, L, w, exact)
+            fails = oracle_el(pc_, h, p, L, w, exact, rt32)
         except Exception as ex:                      # an exception on an in-domain profile is a failure of the property
             fails = [("el:exception", "equivalent_layers raised %s: %s" % (type(ex).__name__, ex))]
         for key, what in fails:
@@ -610,7 +875,8 @@ def run(chk):
             real = pc.equivalent_layers(h, p, L, w=w) if usew else pc.equivalent_layers(h, p, L)
         except Exception:
             real = None
-        if real is not None and all(numpy.shape(r) == (L,) for r in real):
+        if real is not None and all(numpy.shape(r) == (L,) for r in real) and rt32 is None and N <= 400:
+            # (single-precision columns are computed in float32 by NumPy, the model runs in binary64: oracle only; N > 400: oracle only)
             flat = [x for arr in real for x in arr]
             ex_idx = set(range(L, 2 * L)) if exact else set()
 
@@ -621,7 +887,7 @@ def run(chk):
             op("el %d %d %d %s %s%s" % (N, L, 1 if usew else 0, _hex(h), _hex(p), (" " + _hex(w)) if usew else ""), chk_el)
             chk.corr_cases += 1
         # NumPy semantics of the pinned construction (validates the Float model of arange/digitize)
-        if exact and it % 2 == 0 and h.max() > h.min():
+        if exact and it % 2 == 0 and h.max() > h.min() and rt32 is None and N <= 400:
             n_real, c_real = _pinned_el(h, p, L)
             if n_real != L:
                 chk.count("elpin:edges!=L")
@@ -837,6 +1103,12 @@ def run(chk):
         if it % 40 == 7:
             L = rng.randint(2, 6)
         R = rng.choice([0, 1, 2, 3] if quick else [0, 1, 2, 3, 5, 10])
+        if it % 25 == 4:
+            R = 10 if quick else rng.choice([10, 10, 50])       # the docstring's recommendation ("recommended 10?")
+        if it % 110 == 50:
+            # high-resolution input: N beyond 2^8 (the local search costs O(N^2 L) per step: few layers out, no / one restart)
+            N, L, R = rng.randint(257, 300), rng.randint(2, 4), (0 if quick else rng.choice([0, 1]))
+            chk.count("og:N>256")
         hkind = ["dyadic", "irregular", "regular", "clustered", "dups", "unsorted", "descending"][it % 7]
         skind = ["dyadic", "float", "ones", "zeros", "dyadic"][it % 5]
         if hkind in ("unsorted", "descending"):
@@ -860,18 +1132,64 @@ def run(chk):
             h = numpy.round(h * 4).astype("int64")
             p = numpy.round(p * 16).astype("int64")
             chk.count("og:integer-dtype")
+        # ---- round 5 (generator audit): storage / magnitude / argument-type / RNG-state classes; the clauses are unchanged
+        rt32, layout, is_int = None, None, h.dtype.kind != "f"
+        if it % 20 == 19 and hkind in ("dyadic", "dups", "unsorted", "descending") and exact:
+            h = numpy.round(h * 4).astype("int32")          # quarter metres up to 20 km and 14-bit counts fit int32
+            p = numpy.round(p * 16).astype("int32")
+            is_int = True
+            chk.count("og:integer-dtype")
+            chk.count("og:dtype=int32")
+        # unsigned integer heights (what a table column of non-negative whole metres is often stored as): finding og:unsigned-heights
+        # (|h_a − h_b| wrapped around inside the cost function), fixed by 12ba4b5
+        elif it % 20 == 7 and hkind in ("dyadic", "dups", "unsorted", "descending") and exact:
+            h = numpy.round(h * 4).astype(["uint16", "uint32", "uint64"][it // 20 % 3] if float(numpy.max(h)) * 4 < 65000 else "uint32")
+            p = numpy.round(p * 16).astype("int32")
+            is_int = True
+            chk.count("og:integer-dtype")
+            chk.count("og:dtype=unsigned")
+        elif not is_int and it % 20 == 11:
+            # single-precision columns: the library's costs are float32 numbers; strengths are kept dyadic (<= 14 bits, sums
+            # exact in float32) so that the grouping stays recoverable exactly; the cost clause is asked to RT32
+            # (observed on the unchanged tree: the returned cost never exceeded the equal split's at all — ratio <= 1 — in every
+            # float32 case of seeds 0..11 quick + thorough seed 0)
+            if not exact:
+                skind = "dyadic"
+                p = _strengths(rng, N, skind)
+                exact = True
+            h, p = h.astype("float32"), p.astype("float32")
+            exact_cost, rt32 = False, RT32
+            chk.count("og:dtype=float32")
+        elif not is_int and it % 3 == 2:
+            p = p * 2.0 ** rng.randint(-100, 40)                 # other units / magnitudes, exact powers of two
+            if rng.random() < 0.5:
+                h = h * 2.0 ** -10
+            chk.count("og:rescaled-by-powers-of-two")
+        if it % 10 in (3, 6):
+            layout = rng.choice(["table-column", "negstride"]) if it % 10 == 3 else "readonly"
+            h, p = _relayout1(h, layout), _relayout1(p, layout)
+            chk.count("og:layout=" + layout)
+        if it % 6 == 1:
+            R, L = _np_int(rng, R), _np_int(rng, L)
+            chk.count("og:R, L are NumPy integers")
+        pc_ = ENTRY[it % 3][1]
         chk.count("og:h=%s" % hkind)
         seed = rng.getrandbits(31)
-        chk.case(("og", N, L, R, hkind, skind, seed))
+        if it % 9 == 2:
+            # states of the global generator reached from the smallest / largest scalar seed and from array seeds (> 2^32, > 2^53)
+            seed = rng.choice([0, 2 ** 32 - 1, [rng.getrandbits(32), rng.getrandbits(32)], [2 ** 32 - 1] * 3 + [rng.getrandbits(32)]])
+            chk.count("og:numpy seed 0 / 2^32-1 / array")
+        chk.case(("og", N, L, R, hkind, skind, str(seed)))
         chk.count("og:L=1" if L == 1 else ("og:L=N-1" if L == N - 1 else "og:1<L<N-1"))
         chk.count("og:R=%d" % R)
         chk.count("og:p=%s" % skind)
         chk.oracle_cases += 1
-        replay = {"call": "optimal_grouping", "R": R, "L": L, "h": _fl(h), "p": _fl(p), "numpy_seed": seed,
+        replay = {"call": "optimal_grouping", "R": int(R), "L": int(L), "h": _fl(h), "p": _fl(p), "numpy_seed": seed,
                   "h_hex": _hex(h), "p_hex": _hex(p), "exact": exact, "exact_cost": exact_cost,
-                  "dtypes": [str(h.dtype), str(p.dtype), None]}
+                  "dtypes": [str(h.dtype), str(p.dtype), None], "layout": layout, "L_type": type(L).__name__, "rt32": rt32,
+                  "via": ENTRY[it % 3][0]}
         try:
-            fails = oracle_og(pc, h, p, L, R, seed, exact, exact_cost)
+            fails = oracle_og(pc_, h, p, L, R, seed, exact, exact_cost, rt32)
         except Exception as ex:
             fails = [("og:exception", "optimal_grouping raised %s: %s" % (type(ex).__name__, ex))]
         for key, what in fails:
@@ -882,8 +1200,15 @@ def run(chk):
     worst = {}
     moved = {}
     def _body_gctm(it):
-        thin = it >= n_g
-        fam, h, p, L = _gctm_profile(rng, it - n_g if thin else it, NMAX, GCTM_THIN if thin else GCTM_GENERAL)
+        thin = n_g <= it < n_g + n_thin
+        scalings = None
+        if it >= n_g + n_thin:
+            fam, h, p, L, scalings, bands = _gctm_audit_profile(rng, it - n_g - n_thin, NMAX)
+            chk.count("gctm:round-5 argument classes")
+        else:
+            fam, h, p, L = _gctm_profile(rng, it - n_g if thin else it, NMAX, GCTM_THIN if thin else GCTM_GENERAL)
+            bands = not thin
+        pc_ = ENTRY[it % 3][1]
         N = len(h)
         with numpy.errstate(all="ignore"):
             he, ce = pc.equivalent_layers(h, p, L)
@@ -896,18 +1221,24 @@ def run(chk):
         if float(numpy.asarray(he)[0]) == 0.0:
             chk.count("gctm:starting guess has a layer at h = 0")
         chk.oracle_cases += 1
-        replay = {"call": "GCTM", "L": L, "h": _fl(h), "p": _fl(p), "h_hex": _hex(h), "p_hex": _hex(p),
-                  "dtypes": [str(h.dtype), str(p.dtype), None], "bands": not thin}
+        replay = {"call": "GCTM", "L": int(L), "h": _fl(h), "p": _fl(p), "h_hex": _hex(h), "p_hex": _hex(p),
+                  "dtypes": [str(h.dtype), str(p.dtype), None], "bands": bands, "scalings": scalings, "family": fam,
+                  "L_type": type(L).__name__, "via": ENTRY[it % 3][0],
+                  "layout": fam.split(":")[1] if fam.startswith("layout:") else None}
         try:
-            fails, rel = oracle_gctm(pc, h, p, L, moved, bands=not thin)
-            if not thin:
+            fails, rel = oracle_gctm(pc_, h, p, L, moved, bands=bands, scalings=scalings)
+            if it < n_g:
                 worst[L] = tuple(max(a, b) for a, b in zip(worst.get(L, (0.0, 0.0, 0.0)), rel))
+            elif fam == "large-N":
+                worst_big[int(L)] = tuple(max(a, b) for a, b in zip(worst_big.get(int(L), (0.0, 0.0, 0.0)), rel))
         except Exception as ex:
             fails = [("gctm:exception", "GCTM raised %s: %s" % (type(ex).__name__, ex))]
         for key, what in fails:
             chk.fail(key, what, dict(replay, key=key))
-        if it % 3 == 0:
+        if it % 3 == 0 and N <= 400:
             HS, CS = 10000.0, 100e-15
+            if scalings is not None:
+                HS, CS = (HS if scalings[0] is None else scalings[0]), (CS if scalings[1] is None else scalings[1])
             hs, cs = h / HS, p / CS
             mom = [float(x) for x in pc._moments(hs, cs, L)]
 
@@ -925,8 +1256,14 @@ def run(chk):
             op("minfunc %d %s %s" % (L, _hex(x), _hex(mom)), chk_mf)
             chk.corr_cases += 2
     n_thin = 30 if quick else 600
-    for it in range(n_g + n_thin):
+    n_audit = 24 if quick else 400
+    worst_big = {}
+    for it in range(n_g + n_thin + n_audit):
         guarded('gctm', _body_gctm, it)
+    if worst_big:
+        chk.notes.append("GCTM on 257..3000 input layers, measured in this run, L: (worst single moment [not judged], total Cn2 [not judged], "
+                         "residual norm) — " + "; ".join("L=%d: (%.3g, %.3g, %.3g) allowed (-, -, %g)" % ((L,) + worst_big[L] + GCTM_BAND[L][2:])
+                                                for L in sorted(worst_big)))
     chk.notes.append("GCTM accuracy measured in this run (numeric only), L: (worst relative error of a scaled moment, of moment 0 = "
                      "total Cn2, relative norm of the moment residual) — "
                      + "; ".join("L=%d: (%.3g, %.3g, %.3g) allowed (%g, %g, %g)" % ((L,) + worst[L] + GCTM_BAND[L]) for L in sorted(worst)))
@@ -986,7 +1323,100 @@ def run(chk):
     for it in range(6 if quick else 60):
         guarded('sequence', _body_seq, it)
 
+    # round 5: ... and then ANOTHER profile with the same number of layers and the same L (a night's worth of profiles from one
+    # instrument): anything remembered between calls under (N, L) alone belongs to the previous profile.  Profile B is profile A
+    # with the strengths mirrored (turbulence moved to the other end) and/or new heights; every clause is evaluated on B's result.
+    def _body_seq2(it):
+        N = rng.randint(6, 30)
+        L = rng.randint(1, min(N - 1, 5))
+        hA = _heights(rng, N, ["regular", "irregular", "dyadic"][it % 3], L)
+        pA = numpy.array([rng.uniform(0.05, 1) ** 3 for _ in range(N)]) * 10 ** rng.uniform(-14, -12)
+        wA = numpy.array([rng.uniform(1, 60) for _ in range(N)])
+        how = ["mirrored strengths, same heights", "new heights, same strengths", "new heights and strengths"][it % 3]
+        hB = hA.copy() if it % 3 == 0 else _heights(rng, N, ["irregular", "regular"][it % 2], L)
+        pB = pA[::-1].copy() if it % 3 == 0 else (pA.copy() if it % 3 == 1 else pA[::-1] * numpy.array([rng.uniform(0.5, 2) for _ in range(N)]))
+        wB = wA[::-1].copy()
+        seed = rng.getrandbits(31)
+        chk.case(("sequence-2", N, L, it))
+        chk.count("sequence: another profile with the same N and L")
+        chk.oracle_cases += 1
+        base = {"call": "sequence", "hA": _fl(hA), "pA": _fl(pA), "h": _fl(hB), "p": _fl(pB), "w": _fl(wB), "L": L, "numpy_seed": seed, "how": how}
+        with numpy.errstate(all="ignore"):
+            st = numpy.random.get_state()
+            try:
+                numpy.random.seed(seed)
+                pc.equivalent_layers(hA, pA, L, w=wA)
+                pc.optimal_grouping(3, L, hA, pA)
+                pc.GCTM(hA, pA, L)
+            finally:
+                numpy.random.set_state(st)
+            # (the oracles' own keys are kept: an empty slab in B is the known finding el:empty-slab:nan-height here as anywhere)
+            fails = list(oracle_el(pc, hB, pB, L, wB, False))
+            fails += list(oracle_og(pc, hB, pB, L, 3, seed, False, False))
+            he, ce = pc.equivalent_layers(hB, pB, L)
+            if numpy.all(numpy.asarray(ce) > 0) and numpy.all(numpy.isfinite(he)):
+                fails += list(oracle_gctm(pc, hB, pB, L, None, bands=False)[0])
+        for key, what in fails:
+            chk.fail(key, what + " — for profile B (%s) compressed right after profile A with the same N=%d, L=%d" % (how, N, L),
+                     dict(base, key=key))
+    for it in range(6 if quick else 60):
+        guarded('sequence', _body_seq2, it)
+
+    # ---------------------------------------------------------------- the same calls here, at the end of a long history
+    def _call(job, hh, pp, ww):
+        with numpy.errstate(all="ignore"):
+            if job["fn"] == "equivalent_layers":
+                return pc.equivalent_layers(hh, pp, job["L"], w=ww)
+            if job["fn"] == "optimal_grouping":
+                numpy.random.seed(job["seed"])
+                return pc.optimal_grouping(job["R"], job["L"], hh, pp)
+            return pc.GCTM(hh, pp, job["L"])
+    import json as _json
+    try:
+        c_out, c_err = child.communicate(timeout=600)
+    except Exception as ex:
+        child.kill()
+        raise OSError("the fresh-interpreter child did not finish: %s" % ex)
+    if child.returncode != 0:
+        if "aotools" in c_err and "Traceback" in c_err:
+            chk.fail("history:fresh-process:exception", "in a fresh interpreter one of the calls %s raised: %s"
+                     % ([(j["fn"], j["L"]) for j in fresh_jobs], c_err.strip().splitlines()[-1][:300]),
+                     {"call": "fresh-process", "jobs": fresh_jobs, "stderr": c_err[-2000:]})
+            fresh_res = None
+        else:
+            raise OSError("the fresh-interpreter child failed to run: " + c_err[-1500:])
+    else:
+        fresh_res = _json.loads(c_out.strip().splitlines()[-1])
+    for k, job in enumerate(fresh_jobs if fresh_res is not None else []):
+        hB = numpy.array([common.h2f(x) for x in job["h"].split()])
+        pB = numpy.array([common.h2f(x) for x in job["p"].split()])
+        wB = numpy.array([common.h2f(x) for x in job["w"].split()])
+        hA, pA, wA = fresh_prev[k]
+        chk.oracle_cases += 1
+        chk.count("history:first call in a fresh interpreter vs last call of this run")
+        chk.case(("fresh-process", job["fn"], len(hB), job["L"]))
+        try:
+            _call(job, hA, pA, wA)                 # a different profile with the same N and L comes first
+            here = _call(job, hB, pB, wB)
+        except Exception as ex:
+            chk.fail("history:%s:exception" % job["fn"], "%s raised %s: %s at the end of the run" % (job["fn"], type(ex).__name__, ex),
+                     {"call": "fresh-process", "job": job})
+            continue
+        fresh = [numpy.array([common.h2f(x) for x in r.split()]) for r in fresh_res[k]]
+        same = len(fresh) == len(here) and all(numpy.shape(a) == numpy.shape(b) and numpy.allclose(numpy.asarray(a, dtype=float), b, rtol=1e-9,
+                                                                                                  atol=0, equal_nan=True) for a, b in zip(here, fresh))
+        if not same:
+            chk.fail("history:%s:differs-from-a-fresh-process" % job["fn"],
+                     "%s(N=%d, L=%d) called at the end of this run, right after another profile with the same N and L, returns %s, but %s as "
+                     "the first call in a fresh interpreter (same arguments%s)"
+                     % (job["fn"], len(hB), job["L"], [numpy.asarray(x).tolist() for x in here][:2], [x.tolist() for x in fresh][:2],
+                        ", global generator seeded with %d" % job["seed"] if job["fn"] == "optimal_grouping" else ""),
+                     {"call": "fresh-process", "job": job, "previous_profile": {"h": _fl(hA), "p": _fl(pA)},
+                      "key": "history:%s:differs-from-a-fresh-process" % job["fn"]})
+
     numpy.random.set_state(np_state)
+    chk.notes.append("single-precision columns, worst relative deviation in this run (allowed %g): %s"
+                     % (RT32, ", ".join("%s %.3g" % kv for kv in sorted(W32.items())) or "none generated"))
 
     # ---------------------------------------------------------------- run the driver once, compare
     try:
@@ -1017,13 +1447,29 @@ def replay(rec):
         h = h.astype(dts[0])
     if dts[1]:
         p = p.astype(dts[1])
-    if call == "equivalent_layers":
-        w = None if r.get("w") is None else numpy.array(r["w"], dtype=dts[2] or float)
-        fails = oracle_el(pc, h, p, r["L"], w, r.get("exact", False))
-    elif call == "optimal_grouping":
-        fails = oracle_og(pc, h, p, r["L"], r["R"], r["numpy_seed"], r.get("exact", False), r.get("exact_cost", False))
-    else:
-        fails = oracle_gctm(pc, h, p, r["L"], bands=r.get("bands", True))[0]
+    lay = r.get("layout")
+    if lay:
+        h, p = _relayout1(h, lay), _relayout1(p, lay)
+    L = r["L"]
+    if str(r.get("L_type", "int")) != "int":
+        L = getattr(numpy, r["L_type"])(L)
+    if r.get("via") in ("aotools", "aotools.turbulence"):
+        import importlib
+        pc = importlib.import_module(r["via"])
+    try:
+        if call == "equivalent_layers":
+            w = None if r.get("w") is None else numpy.array(r["w"], dtype=dts[2] or float)
+            if lay and w is not None:
+                w = _relayout1(w, lay)
+            fails = oracle_el(pc, h, p, L, w, r.get("exact", False), r.get("rt32"))
+        elif call == "optimal_grouping":
+            fails = oracle_og(pc, h, p, L, r["R"], r["numpy_seed"], r.get("exact", False), r.get("exact_cost", False), r.get("rt32"))
+        else:
+            sc = r.get("scalings")
+            fails = oracle_gctm(pc, h, p, L, bands=r.get("bands", True), scalings=tuple(sc) if sc else None)[0]
+    except Exception as ex:     # the recorded failure may be an exception raised by the library
+        fails = [("%s:exception" % {"equivalent_layers": "el", "optimal_grouping": "og"}.get(call, "gctm"),
+                  "%s raised %s: %s" % (call, type(ex).__name__, ex))]
     for key, what in fails:
         print("STILL FAILS [%s] %s" % (key, what))
     if not fails:
